@@ -23,7 +23,7 @@ RULE = ("seeded random schemas with 2-5 indexes per table x histories of 20-40 s
 
 def check(tier):
     return dc.check(PID, tier, "c16", ["MC_Tables_keys_q.cfg"], ["MC_Tables_keys_t.cfg"], "MC_Tables_keys_dump.cfg",
-                    n_quick=14, n_thorough=150, floors={"statements": 250, "changed": 80, "probes_via_index": 2000}, rule=RULE, probes=True)
+                    n_quick=14, n_thorough=60, floors={"statements": 250, "changed": 80, "probes_via_index": 2000}, rule=RULE, probes=True)
 
 
 def replay(path):
